@@ -3,6 +3,7 @@ module verifharness
 go 1.23.1
 
 require (
+	github.com/alphadose/haxmap v1.3.1
 	github.com/dapr/kit v0.0.0
 	github.com/lestrrat-go/jwx/v2 v2.0.21
 	github.com/spiffe/go-spiffe/v2 v2.1.7
@@ -12,7 +13,6 @@ require (
 )
 
 require (
-	github.com/alphadose/haxmap v1.3.1 // indirect
 	github.com/fsnotify/fsnotify v1.7.0 // indirect
 	github.com/gogo/protobuf v1.3.2 // indirect
 	github.com/lestrrat-go/blackmagic v1.0.2 // indirect
